@@ -85,11 +85,12 @@ def reference_ok(a: ast.AST, b: ast.AST, ops) -> bool:
     ):
         if not (isinstance(b, ast.Call) and isinstance(b.func, ast.Name) and b.func.id == a.func.attr):
             return False
-        if b.keywords or len(b.args) != len(a.args) + 1:
+        # Op(seq, args...) with the SAME keyword arguments (wave-9 audit: they used to be dropped)
+        if len(b.args) != len(a.args) + 1 or len(b.keywords) != len(a.keywords):
             return False
         return reference_ok(a.func.value, b.args[0], ops) and all(
             reference_ok(x, y, ops) for x, y in zip(a.args, b.args[1:])
-        )
+        ) and all(ka.arg == kb.arg and reference_ok(ka.value, kb.value, ops) for ka, kb in zip(a.keywords, b.keywords))
     if type(a) is not type(b):
         return False
     for f in a._fields:
@@ -149,7 +150,7 @@ def check_cases(ctx, srcs):
         ctx.count(src, nontrivial, sample={"src": src, "out": ast.unparse(out)},
                   tags=["has-method-op" if nontrivial else "no-method-op"])
         # oracle on the implementation
-        kw = has_kw_on_method_op(orig, ops)
+        kw = False  # keyword arguments on operator calls are kept by the rewrite (repo fix after the wave-9 audit)
         if has_method_op(out, ops):
             ctx.violate({"src": src, "out": ast.unparse(out)}, "method-form operator call remains")
         if again != out_enc:
